@@ -783,7 +783,7 @@ def _trigger(o, before_conns, drivers, log, failed_after, ifs):
     return ranked[0][2] if ranked else "unwired"
 
 
-def _ref_value(w, rec, levels, allowed, fids):
+def _ref_value(w, rec, levels, allowed, fids, closures):
     """the term the target must return: the wrapped functions composed in plain Python along the data
     connections (first connection holding data wins; an unconnected input keeps its value; a macro that
     runs as one unit is a black box whose observed output is taken as given)"""
@@ -793,8 +793,10 @@ def _ref_value(w, rec, levels, allowed, fids):
     vin, vout_after = _ik(vb["in"]), _ik(va["out"])
     # a macro that drives a level is run in full (`parent.run()`), which fetches its own inputs from whatever
     # their upstream channels hold at that moment and forwards them by value to its children
+    # ... with the parent scopes every ancestor's inputs are fetched explicitly; without, the direct parent
+    # does so only if it runs at all, i.e. if the level target is not alone in its closure
     par = _ik(w["parent"])
-    drivers = {par.get(a) for a in levels} - {None}
+    drivers = (set(levels[:-1]) | {par.get(a) for a in levels if len(closures[a]) > 1}) - {None}
     memo = {}
 
     def slotval(g, lab):
@@ -929,7 +931,7 @@ def _oracle_rec(case, w, rec, fids):
         fail("automate-restored", f"automate_execution {b['automate']} -> {a['automate']}", outcome=outcome)
     # 6. returned value
     if outcome == "ok" and refusing is None and not out:
-        ref = _ref_value(w, rec, levels, allowed, fids)
+        ref = _ref_value(w, rec, levels, allowed, fids, closures)
         if ref is not None and (rec["ret"] != ref or rec["out"] != ref):
             fail("value", f"returned {rec['ret']} (output channel {rec['out']}), reference {ref}")
     return out
